@@ -78,8 +78,9 @@ claim("C14",
   "(no invented member, any input), vfl_exact + keys_nodup (under g_enum_sanitised_distinct the table is exactly the declared values), enum_exact_str (under g_no_bs_nl and g_enum_sanitised_distinct: the class "
   "exists, every listed string decodes to a member whose .value is that string, whatever decodes is a listed string, everything else raises, no other members), enum_exact_int (no guard; int tables never raise), "
   "enum_dup_reported (a raw key equal to an earlier stored name raises, is never merged), literal_enum_exact, null_makes_nullable / no_null_plain / nullable_accepts_null, const_exact + py_eq_same_type; "
+  "unreported_enum_class_exact / twins_share_only_equal_tables (on Scopes.model_decls, the model of EnumProperty.build's same-class-name test: an unreported enum holds under its class name exactly its own member table; equal member names with different wire values are reported, never merged); "
   "`_refuted` witnesses: enum_silent_merge, enum_dup_crash, enum_backslash, nullable_passthrough, numeric alias (enum and const), const quote. All for unbounded lists/strings (induction), Unicode table facts "
-  "regenerated. Tied to the code by (a) EnumProperty.values_from_list / EnumProperty.build / LiteralEnumProperty.build vs the model on hostile value lists, (b) generated classes of both enum styles imported in a fresh "
+  "regenerated. Tied to the code by (a) EnumProperty.values_from_list / EnumProperty.build / LiteralEnumProperty.build vs the model on hostile value lists, (a') documents with two enums deriving one class name (inline/inline, inline/component, property/parameter; case, delimiter, VALUE_n and int-vs-string twins) vs Scopes.model_decls plus a document oracle (every enum property generated without a diagnostic accepts exactly the values its own schema lists), (b) generated classes of both enum styles imported in a fresh "
   "interpreter: members, *_VALUES sets and the from_dict decode of every probe value (listed, same-type unlisted, Python-equal of another type, other types, null) and const checks vs the model, all evaluated inside Coq; "
   "stage C evaluates the property's predicate on the generated classes and classifies deviations by the Coq guards.",
   "Trusted: Coq kernel+vm_compute; CPython Enum value lookup / set membership / == as modelled by enum_lookup / literal_check / py_eq (correspondence only); identifiers are NFKC-normalised by CPython (member names are "
@@ -163,12 +164,15 @@ claim("C03",
   "Coq theorems on Endpoint.v, a model of the generated _get_kwargs: query/header/cookie placement (each argument appears under exactly its wire name, in its own location, with its encoded value), "
   "*_nothing_else (no other key is sent), *_unset_absent (unset optional arguments are not sent), method_literal, content_type_matches, security_demands_auth, and path_slots: for ALL path templates and "
   "parameter lists inside the guard (distinct names, plain python names, no python name equal to another parameter's wire name) the sequential str.replace placeholder rewrite of sort_parameters followed by "
-  "str.format fills every {wire name} slot with its own argument; refutation witness multi_body_same_type. The model is tied to the code by executing the GENERATED _get_kwargs in a fresh interpreter on an atlas "
+  "str.format fills every {wire name} slot with its own argument; refutation witness multi_body_same_type; Multipart.v (to_multipart parts) mp_*; Client.v (AuthenticatedClient life cycle as a state machine over "
+  "a heap of aliased headers dicts and cached httpx clients): own_credential - for EVERY sequence of new / evolve / with_headers / with_timeout / token assignment / sync+asyncio use inside the guard, each use carries exactly the "
+  "client's own credential - and derived_sends_own_token, with three refutations showing the guards are necessary. The model is tied to the code by executing the GENERATED _get_kwargs in a fresh interpreter on an atlas "
   "of operations (every parameter kind x location, out-of-order path parameters, path-item overrides, one name in several locations, reserved names, bodies, security) plus random operations and comparing "
   "method/url/params/cookies/headers/json/data with Endpoint.get_kwargs evaluated by vm_compute; an oracle compares the request captured behind httpx.MockTransport (sync and asyncio variants, with the generated "
-  "client building its own httpx client incl. credential header) with an expectation computed from the document.",
+  "client building its own httpx client incl. credential header) with an expectation computed from the document; client operation sequences (fixed + random, a quarter outside the guard) are run on the generated "
+  "AuthenticatedClient and every observed auth-header list is compared with Client.run.",
   "Trusted: Coq kernel+vm_compute; gen_kinds.py; abstraction harness/lib/epwork.py+absprop.py; client_runner.py; httpx request encoding is outside the model (the theorem stops at the kwargs dict; the captured request is compared by the "
-  "oracle only); multipart/octet-stream bodies are not modelled; str.format is modelled for plain {identifier} fields only.",
+  "oracle only); octet-stream bodies are not modelled; httpx.Headers semantics (case-insensitive list, __setitem__, update) and attrs.evolve aliasing are modelled by hand in Client.v and validated only by the correspondence; set_httpx_client is not modelled; str.format is modelled for plain {identifier} fields only.",
   "Coq proof (list/map invariants; string-rewrite theorem) + in-Coq differential correspondence against executed generated code", "4/C03")
 claim("C04",
   "Coq theorems on Endpoint.v's model of the generated _parse_response: documented_status_decoded (a documented status is decoded from the documented source json/text/bytes/none with the documented schema's decoder, "
